@@ -131,7 +131,7 @@ def run_nonmarkov_sis(spec, props=("C13",)):
     budget = spec.get("budget", 3)
     form = spec.get("form", "sep")
     full = bool(spec.get("full", True))
-    cls = form
+    cls = form + ("+directed" if spec.get("directed") else "")
 
     def lists(d):
         # [], [a], [a,b], [a,c]: a<b<c; c lies beyond the shorter duration (the property speaks of *any* listed
@@ -545,6 +545,13 @@ def specs_nonmarkov_sis(tier):
                         b = 2                              # 4-node graphs
                     out.append(dict(fn="fast_nonMarkov_SIS", n=n, edges=es, I0=list(I0), tmax=6.0, budget=b,
                                     form=form, full=full))
+            if len(I0) == 1 and n == 3 and len(es) == 2:
+                # directed contact networks: attempts only along edge direction
+                for des in ([(0, 1), (1, 2)], [(1, 0), (1, 2)], [(0, 1), (1, 0), (1, 2), (2, 0)], [(0, 1), (1, 2), (2, 0)]):
+                    for form in ("sep", "joint"):
+                        for full in (True, False):
+                            out.append(dict(fn="fast_nonMarkov_SIS", n=3, edges=des, directed=True, I0=list(I0), tmax=6.0, budget=3 if len(des) <= 2 else 2,
+                                            form=form, full=full))
             if len(I0) == 1:
                 for form in ("sep_args", "joint_args"):
                     for full in (True, False):
